@@ -79,6 +79,10 @@ pub struct MemDb {
     pub delay_us: u64,
     /// panic when this key is read (a user database that panics inside a worker)
     pub panic_key: Option<Key>,
+    /// panic only on the first read of `panic_key`
+    pub panic_once: bool,
+    /// how many times the injected panic was raised
+    pub panics_raised: AtomicU64,
 }
 
 impl Clone for MemDb {
@@ -93,6 +97,8 @@ impl Clone for MemDb {
             attach_code: self.attach_code,
             delay_us: self.delay_us,
             panic_key: self.panic_key.clone(),
+            panic_once: self.panic_once,
+            panics_raised: AtomicU64::new(0),
         }
     }
 }
@@ -134,7 +140,10 @@ impl MemDb {
     }
     fn check(&self, key: Key) -> Result<(), DbError> {
         if self.panic_key.as_ref() == Some(&key) {
-            panic!("injected panic at {key:?}");
+            let n = self.panics_raised.fetch_add(1, Ordering::SeqCst);
+            if !self.panic_once || n == 0 {
+                panic!("injected panic at {key:?}");
+            }
         }
         if self.delay_us > 0 {
             std::thread::sleep(std::time::Duration::from_micros(self.delay_us));
